@@ -61,7 +61,7 @@ def _summ_conv(f):
     (name, (x, _)), = s.args.items()
     if s.obligations:
         raise symx.Unsupported(f"converter has safety obligations: {s.obligations}")
-    return x, s.result.real() if isinstance(s.result, symx.Num) else None
+    return x, symx.real_term(s.result)
 
 
 def algebra(rep, per):
@@ -204,7 +204,7 @@ def _wiring_worker(job):
             try:
                 s = symx.summarise(f0, sym_args={"x": "float"})
                 x = s.args["x"][0]
-                r = s.result.real()
+                r = symx.real_term(s.result)
                 F = per[u] / per[v]
                 res = solve.check([z3.Not(_close(r, x * _real(F)))], 20)
                 if res.status == "sat":
@@ -303,10 +303,10 @@ def run(tier="quick", seed=0, jobs=16):
         rep.ob("K:documented factors parsed from GEP-4", "unsupported", "parse", 0, "docs/geps/gep-04.md", "doc", str(per))
         return rep.finish()
     algebra(rep, per)
-    dates = rules.quick_dates()
-    if tier == "quick":
-        # time conversion wiring depends on the set of function names only: one class per distinct name set
-        pass
+    # the wiring depends on the set of active rule implementations only (no parameter is read):
+    # one class per interval between decorator dates is exhaustive; thorough re-checks every
+    # parameter date class as well
+    dates = venv.function_set_classes() if tier == "quick" else rules.quick_dates()
     results = par.pmap(_wiring_worker, [(c, {k: str(v) for k, v in per.items()}) for c in par.chunks(dates, jobs)], jobs)
     items = {}
     n_checked = 0
